@@ -3,6 +3,8 @@ package checks
 // C14 - statements release every buffer pin they take: pin-vector monitor around every statement + repetition in a tight pool.
 
 import (
+	"github.com/ryogrid/SamehadaDB/lib/storage/access"
+
 	"fmt"
 	"sort"
 	"strings"
@@ -167,10 +169,17 @@ func c14Run(env *core.Env, idx int) *core.CaseResult {
 			return stmt{fmt.Sprintf("SELECT * FROM q WHERE qv >= '%s';", gen.Value(r, rm.KStr, false, false).S), "select-varchar-range"}
 		}
 	}
-	exec := func(st stmt) (aborted bool, shape string, panicMsg string) {
+	// execIn runs one statement and compares the pin vector before and after it; open == nil: in its own transaction
+	var execIn func(open *access.Transaction, st stmt) (aborted bool, shape string, panicMsg string)
+	exec := func(st stmt) (aborted bool, shape string, panicMsg string) { return execIn(nil, st) }
+	execIn = func(open *access.Transaction, st stmt) (aborted bool, shape string, panicMsg string) {
 		before := pinVector(db)
 		var rr sqlx.Result
 		msg, panicked := guarded(func() {
+			if open != nil {
+				rr = db.Exec(open, st.sql)
+				return
+			}
 			txn := db.Begin()
 			rr = db.Exec(txn, st.sql)
 			if rr.Aborted {
@@ -180,6 +189,9 @@ func c14Run(env *core.Env, idx int) *core.CaseResult {
 			}
 		})
 		res.Add("statements", 1)
+		if open != nil {
+			res.Add("statements_inside_multi_statement_transactions", 1)
+		}
 		res.Add("statements_"+st.kind, 1)
 		if panicked {
 			return false, "", msg
@@ -195,6 +207,9 @@ func c14Run(env *core.Env, idx int) *core.CaseResult {
 		}
 		if d != "" {
 			tags := []string{"kind-" + st.kind}
+			if open != nil {
+				tags = append(tags, "in-multi-statement-txn")
+			}
 			for _, a := range []string{"HashJoin", "IndexJoin", "NestedLoopJoin", "IndexRangeScan", "SeqScan"} {
 				if strings.Contains(rr.Shape, a) {
 					tags = append(tags, "plan-"+a)
@@ -228,6 +243,52 @@ func c14Run(env *core.Env, idx int) *core.CaseResult {
 			if _, _, pm := exec(st); pm != "" {
 				res.Violate("panic", []string{"kind-" + st.kind}, desc(st.sql, ""), "%s panicked: %s", clipStr(st.sql, 160), pm)
 				return res
+			}
+			// a multi-statement transaction: every statement sees the transaction's own earlier changes (rows it deleted,
+			// moved or inserted); pins are compared around every statement and around the commit / abort
+			if i%5 == 4 {
+				txn := db.Begin()
+				beforeTxn := pinVector(db)
+				nst := 2 + r.Intn(4)
+				dead := false
+				var sqls []string
+				for k := 0; k < nst && !dead; k++ {
+					st := genStmt()
+					if st.kind == "plan-error" {
+						st = stmt{"SELECT id, pk FROM p WHERE id >= 0 OR pk = 2;", "select-scan"}
+					}
+					if k == nst-1 && r.Intn(2) == 0 {
+						st = stmt{[]string{"SELECT id, pv FROM p WHERE pk >= 0 OR id = 1;", "SELECT * FROM q WHERE qk >= 0 OR id = 1;", "SELECT p.id, q.id FROM p JOIN q ON p.pk = q.qk;"}[r.Intn(3)], "select-scan-after-own-writes"}
+					}
+					sqls = append(sqls, clipStr(st.sql, 80))
+					ab, _, pm := execIn(txn, st)
+					if pm != "" {
+						res.Violate("panic", []string{"kind-" + st.kind, "in-multi-statement-txn"}, desc(strings.Join(sqls, " | "), ""), "%s panicked inside a multi-statement transaction: %s", clipStr(st.sql, 160), pm)
+						return res
+					}
+					if ab {
+						dead = true
+					}
+				}
+				end := "commit"
+				if dead || r.Intn(3) == 0 {
+					end = "abort"
+				}
+				if msg, panicked := guarded(func() {
+					if end == "abort" {
+						db.Abort(txn)
+					} else {
+						db.Commit(txn)
+					}
+				}); panicked {
+					res.Violate("panic", []string{"txn-" + end, "in-multi-statement-txn"}, desc(strings.Join(sqls, " | "), ""), "%s of a multi-statement transaction panicked: %s", end, msg)
+					return res
+				}
+				res.Add("multi_statement_transactions", 1)
+				res.Add("multi_statement_transactions_"+end, 1)
+				if d, _ := pinDiff(beforeTxn, pinVector(db)); d != "" {
+					res.Violate("pin-leak", []string{"txn-" + end, "in-multi-statement-txn"}, desc(strings.Join(sqls, " | "), ""), "transaction [%s] ended by %s changed the pin vector: %s", strings.Join(sqls, " | "), end, d)
+				}
 			}
 			// a statement aborted by a lock that a parked transaction holds
 			if i%8 == 7 && len(q.Rows) > 0 {
